@@ -1500,10 +1500,12 @@ fn large_par_cases(ctx: &mut Ctx) {
             format!("get {}", len - 1),
             // stale elements beyond the length in the boundary word (and after it): the parallel
             // resets must leave them alone (frame check of every op)
+            "clear".to_string(),
             format!("resize {} {}", len + 70, v),
             format!("resize {} {}", len, v),
             "apar_reset".to_string(),
             format!("get {}", len - 1),
+            "clear".to_string(),
             format!("resize {} {}", len + 70, v),
             format!("resize {} {}", len, v),
             "par_reset".to_string(),
